@@ -197,7 +197,7 @@ Inductive msg :=
 | Deploy (auth : acct) (nm : Z) (sym minu : name) (scale : Z)
 | ToErc20 (sender receiver : acct) (denom : name) (amt : Z)
 | FromErc20 (sender receiver : acct) (denom : name) (amt : Z)
-| SetParams (auth : acct) (tax ratio base : Z) (enable beacon : bool)
+| SetParams (auth : acct) (tax ratio base : Z) (denom : name) (enable beacon : bool)
 | EvmMode (m : Z)
 | HookToNative (c : Z) (from to : acct) (amt : Z)
 | UpgradeErc20 (auth : acct) (impl : Z).          (* impl < 0: not a hex address *)
@@ -222,8 +222,8 @@ Definition validate_basic (m : msg) : bool :=
       valid_addr auth && valid_tname nm && (0 <=? scale) && (scale <=? 18) && valid_erc20_name minu && valid_erc20_name sym
   | ToErc20 sender receiver denom amt => valid_addr sender && valid_addr receiver && valid_sdk_denom denom && (0 <? amt)
   | FromErc20 sender receiver denom amt => valid_addr sender && valid_addr receiver && valid_sdk_denom denom && (0 <? amt)
-  | SetParams auth tax ratio base _ _ =>
-      valid_addr auth && (0 <=? tax) && (tax <=? P18) && (0 <=? ratio) && (ratio <=? P18) && (0 <=? base)
+  | SetParams auth tax ratio base denom _ _ =>
+      valid_addr auth && valid_sdk_denom denom && (0 <=? tax) && (tax <=? P18) && (0 <=? ratio) && (ratio <=? P18) && (0 <=? base)
       && (base <? 2 ^ 195)   (* [fix:] of the params group: at most 195 bits *)
   | EvmMode _ => true
   | HookToNative _ from _ amt => valid_addr from && (0 <=? amt)
@@ -389,10 +389,12 @@ Definition do_from_erc20 (s : state) sender receiver denom amt : res state :=
           bank_pay s2 receiver denom amt
     end.
 
-(** msgServer.UpdateParams (the fee denom stays) *)
-Definition do_set_params (s : state) auth tax ratio base enable beacon : res state :=
+(** msgServer.UpdateParams: the issue fee must be denominated in a registered SYMBOL (a min unit does not
+    count) — [fix:] of the genesis group *)
+Definition do_set_params (s : state) auth tax ratio base denom enable beacon : res state :=
   if negb (auth =? GOV) then RRej
-  else ROk (upd_pars s (mkParams tax ratio base (p_fee_denom (pars s)) enable beacon)).
+  else if negb (has denom (tokens s)) then RRej
+  else ROk (upd_pars s (mkParams tax ratio base denom enable beacon)).
 
 (** An EVM transaction in which the bound contract [c] burns [amt] of [from]'s ERC20 balance and
     emits SwapToNative(from, to, amt) — the contract's own behaviour, simulated by the harness —
@@ -437,7 +439,7 @@ Definition handle (s : state) (m : msg) : res state :=
   | Deploy auth nm sym minu scale => do_deploy s auth nm sym minu scale
   | ToErc20 sender receiver denom amt => do_to_erc20 s sender receiver denom amt
   | FromErc20 sender receiver denom amt => do_from_erc20 s sender receiver denom amt
-  | SetParams auth tax ratio base enable beacon => do_set_params s auth tax ratio base enable beacon
+  | SetParams auth tax ratio base denom enable beacon => do_set_params s auth tax ratio base denom enable beacon
   | EvmMode m => ROk (upd_mode s m)
   | HookToNative c from to amt => do_hook s c from to amt
   | UpgradeErc20 auth _ => do_upgrade s auth
